@@ -4009,6 +4009,7 @@ size_t ZSTDv07_decompressContinue(ZSTDv07_DCtx* dctx, void* dst, size_t dstCapac
             {
             case bt_compressed:
                 rSize = ZSTDv07_decompressBlock_internal(dctx, dst, dstCapacity, src, srcSize);
+                if (!ZSTDv07_isError(rSize) && rSize > ZSTDv07_BLOCKSIZE_ABSOLUTEMAX) return ERROR(corruption_detected);   /* as the single-call decoder */
                 break;
             case bt_raw :
                 rSize = ZSTDv07_copyRawBlock(dst, dstCapacity, src, srcSize);
